@@ -177,26 +177,33 @@ class PortAdapter(_Base):
     return v
 
   def _view_iter(self, pc):
-    """The same facts through iteration: iter / iterkeys / values / items / iter*."""
+    """The same facts through iteration: iter / values / items (and the legacy
+    iterkeys / itervalues / iteritems where the collection still has them)."""
     out = {}
     out["iter"] = ssort(self._no(k) for k in iter(pc))
-    out["iterkeys"] = ssort(self._no(k) for k in pc.iterkeys())
     out["values"] = ssort(self._tup(x) for x in pc.values())
-    out["itervalues"] = ssort(self._tup(x) for x in pc.itervalues())
     out["items"] = ssort([self._no(k)] + self._tup(x) for k, x in pc.items())
-    out["iteritems"] = ssort([self._no(k)] + self._tup(x) for k, x in pc.iteritems())
+    if hasattr(pc, "iterkeys"):
+      out["iterkeys"] = ssort(self._no(k) for k in pc.iterkeys())
+    if hasattr(pc, "itervalues"):
+      out["itervalues"] = ssort(self._tup(x) for x in pc.itervalues())
+    if hasattr(pc, "iteritems"):
+      out["iteritems"] = ssort([self._no(k)] + self._tup(x) for k, x in pc.iteritems())
     return out
 
   def _view_member(self, pc):
-    """The same facts through get() / has_key() / `in` with names and addresses."""
-    out = {"get": [], "has_key": [], "in_name": [], "in_hw": [], "get_default": []}
+    """The same facts through get() / `in` with names and addresses (and legacy has_key)."""
+    out = {"get": [], "in_name": [], "in_hw": [], "get_default": []}
+    legacy = hasattr(pc, "has_key")
+    if legacy:
+      out["has_key"] = []
     for p in range(1, self.NP + 2):
       g = pc.get(self.nos[p - 1])
       if g is not None:
         out["get"].append(self._tup(g))
       if pc.get(self.nos[p - 1], "dflt") == "dflt":
         out["get_default"].append(p)
-      if pc.has_key(self.nos[p - 1]):
+      if legacy and pc.has_key(self.nos[p - 1]):
         out["has_key"].append(p)
     for nm in self.probe_names:
       if self.names[nm] in pc:
@@ -424,10 +431,8 @@ class StatsAdapter(_Base):
       t, k, g = args["t"], args["k"], args["g"]
       self.cur_x = args["x"]
       body = b"".join(entry_bytes(t, k, g, args["first"] + j) for j in range(args["n"]))
-      flags = 1 if args["more"] else 0
-      if (self.n + self.variant) % 5 == 4:
-        flags |= 0x8000 if self.variant % 2 else 0     # an undefined flag bit must not matter
-      self.feed(rb.stats_reply(STYPE[t], body, flags=flags & 0xffff, xid=self.xids[args["x"]]))
+      flags = 1 if args["more"] else 0          # OFPSF_REPLY_MORE, the only flag OpenFlow 1.0 defines
+      self.feed(rb.stats_reply(STYPE[t], body, flags=flags, xid=self.xids[args["x"]]))
     elif a == "Other":
       self.feed(self.other(args["kind"]))
     else:
